@@ -52,6 +52,10 @@ type Req struct {
 	Req  string `json:"req"`
 	Dev  bool   `json:"dev,omitempty"`  // devDependencies / <scope>test</scope>
 	Prop string `json:"prop,omitempty"` // Maven only: version is written as ${Prop}, property Prop = Req
+	// Maven only: where the requirement is declared ("" = <dependencies>, see the Origin* constants), and
+	// whether the <version> element is omitted (a direct dependency whose version comes from dependencyManagement).
+	Origin    string `json:"origin,omitempty"`
+	NoVersion bool   `json:"noVersion,omitempty"`
 	// npm only: the dependency is declared under this alias: "<Alias>": "npm:<Name>@<Req>".
 	Alias string `json:"alias,omitempty"`
 	// Maven only: <classifier>/<type> of the dependency, so that one package can legally be required twice.
@@ -186,7 +190,7 @@ func (c *Case) pomXML() []byte {
 	seen := map[string]bool{}
 	var props []string
 	for _, r := range c.Manifest {
-		if r.Prop != "" && !seen[r.Prop] {
+		if r.Prop != "" && !seen[r.Prop] && !r.NoVersion {
 			seen[r.Prop] = true
 			props = append(props, fmt.Sprintf("    <%s>%s</%s>\n", r.Prop, r.Req, r.Prop))
 		}
@@ -194,27 +198,60 @@ func (c *Case) pomXML() []byte {
 	if len(props) > 0 {
 		b.WriteString("  <properties>\n" + strings.Join(props, "") + "  </properties>\n")
 	}
-	b.WriteString("  <dependencies>\n")
-	for _, r := range c.Manifest {
+	dep := func(r Req, indent string) string {
 		ver := r.Req
 		if r.Prop != "" {
 			ver = "${" + r.Prop + "}"
 		}
-		b.WriteString("    <dependency>\n      <groupId>g</groupId>\n      <artifactId>" + r.Name + "</artifactId>\n      <version>" + ver + "</version>\n")
+		o := indent + "<dependency>\n" + indent + "  <groupId>g</groupId>\n" + indent + "  <artifactId>" + r.Name + "</artifactId>\n"
+		if !r.NoVersion {
+			o += indent + "  <version>" + ver + "</version>\n"
+		}
 		if r.Classifier != "" {
-			b.WriteString("      <classifier>" + r.Classifier + "</classifier>\n")
+			o += indent + "  <classifier>" + r.Classifier + "</classifier>\n"
 		}
 		if r.Type != "" {
-			b.WriteString("      <type>" + r.Type + "</type>\n")
+			o += indent + "  <type>" + r.Type + "</type>\n"
 		}
 		if r.Dev {
-			b.WriteString("      <scope>test</scope>\n")
+			o += indent + "  <scope>test</scope>\n"
 		}
-		b.WriteString("    </dependency>\n")
+		return o + indent + "</dependency>\n"
 	}
-	b.WriteString("  </dependencies>\n</project>\n")
+	section := func(origin, indent string) string {
+		o := ""
+		for _, r := range c.Manifest {
+			if r.Origin == origin {
+				o += dep(r, indent)
+			}
+		}
+		return o
+	}
+	b.WriteString("  <dependencies>\n" + section("", "    ") + "  </dependencies>\n")
+	if m := section(OriginManagement, "      "); m != "" {
+		b.WriteString("  <dependencyManagement>\n    <dependencies>\n" + m + "    </dependencies>\n  </dependencyManagement>\n")
+	}
+	pd, pm := section(OriginProfile, "        "), section(OriginProfileManagement, "          ")
+	if pd != "" || pm != "" {
+		b.WriteString("  <profiles>\n    <profile>\n      <id>p1</id>\n      <activation>\n        <activeByDefault>true</activeByDefault>\n      </activation>\n")
+		if pm != "" {
+			b.WriteString("      <dependencyManagement>\n        <dependencies>\n" + pm + "        </dependencies>\n      </dependencyManagement>\n")
+		}
+		if pd != "" {
+			b.WriteString("      <dependencies>\n" + pd + "      </dependencies>\n")
+		}
+		b.WriteString("    </profile>\n  </profiles>\n")
+	}
+	b.WriteString("</project>\n")
 	return []byte(b.String())
 }
+
+// Where a Maven requirement is declared (Req.Origin); "" = the project's <dependencies>.
+const (
+	OriginManagement        = "management"         // <dependencyManagement>
+	OriginProfile           = "profile"            // <dependencies> of a profile that is active by default
+	OriginProfileManagement = "profile-management" // <dependencyManagement> of that profile
+)
 
 // CVSS vectors for the severity option.
 const (
